@@ -521,6 +521,41 @@ theorem inv_unregName {l : Bool} {s : State} (h : Inv l s) (a : Nat) :
           refine inv_unregName_aux h hg hpc s.names (Or.inl ⟨rfl, Or.inr ?_⟩)
           cases l <;> simp_all
 
+theorem inv_drain {l : Bool} {s : State} (h : Inv l s) (a : Nat) : Inv l (step l s (.drain a)).1 := by
+  unfold step
+  cases hg : getA s a with
+  | none => simpa [hg] using h
+  | some x0 =>
+    simp only [hg]
+    split
+    · next c =>
+      obtain ⟨hx0, hid⟩ := getA_some hg
+      have hp := h.pcs x0 hx0
+      have hpc0 : x0.pc = 0 := hp.1.mpr c.2
+      have e : setA s a (fun y => { y with status := draining }) =
+          setA ⟨s.names, s.pids, s.actors⟩ a (fun y => { y with status := draining, pc := x0.pc }) := by
+        apply setA_congr
+        intro x hx hxa
+        rw [getA_unique h.ids hg hx hxa]
+      rw [e]
+      apply inv_setA h hg _ _ s.names s.pids h.keys h.pidKeys
+      · simp only [stopping, stopped, draining] at *; omega
+      · intro p hp'
+        refine ⟨hp', fun _ => by omega⟩
+      · intro hc x hx hr n hn hlt
+        apply h.visible hc x hx hr n hn
+        split at hlt
+        · next e' => rw [getA_unique h.ids hg hx e']; omega
+        · exact hlt
+      · intro b hb
+        exact ⟨hb, fun _ => by omega⟩
+      · intro x hx hr hlt
+        apply h.pidVisible x hx hr
+        split at hlt
+        · next e' => rw [getA_unique h.ids hg hx e']; omega
+        · exact hlt
+    · exact h
+
 theorem inv_step {l : Bool} {s : State} (h : Inv l s) (op : Op) : Inv l (step l s op).1 := by
   cases op with
   | register a n => exact inv_register h a n
@@ -532,6 +567,7 @@ theorem inv_step {l : Bool} {s : State} (h : Inv l s) (op : Op) : Inv l (step l 
   | lookup n => exact h
   | lookupPid a => exact h
   | waitRet a => exact h
+  | drain a => exact inv_drain h a
 
 theorem inv_run {l : Bool} {s : State} (h : Inv l s) (ops : List Op) : Inv l (run l s ops) := by
   induction ops generalizing s with
